@@ -11,7 +11,9 @@ RULE = ("trusted metadata with 1-4 roles holding overlapping / disjoint key sets
 
 THEOREMS = ["verifyDelegation_iff", "other_roles_irrelevant", "unknown_role", "only_keys_of_named_role_count"]
 
-ROLE_NAMES = ["key_mgr", "pkg_mgr", "root", "Key_mgr", "key_mgr ", "key_mgr.json", "", "é", "x"]
+ROLE_NAMES = ["key_mgr", "pkg_mgr", "root", "Key_mgr", "key_mgr ", "key_mgr.json", "", "é", "x",
+              # any string names a role: text that formatting, path or shell machinery would read something into is just a name
+              "pkg_mgr_{subdir}", "{0}", "{", "}", "{{}}", "%s", "%(role)s", "100%", "$HOME", "conda-forge/pkg_mgr", "..", ".", "a\\b", "nul\x00byte", "*", "~"]
 
 
 def deleg_case(rng, gpg: bool):
